@@ -171,6 +171,68 @@ func orphanScenarioFlood(c *Ctx, k int, braid bool, perm []int, extras bool, lab
 	c.Count("scenario." + label)
 }
 
+
+// duplicatedOrphan: a valid vertex reaches the node `copies` times before its parent (several peers gossip it),
+// every copy is parked and replayed `rounds` times on its own counter - far from the bound of 25 - then the parent
+// arrives. The node ends with the ledger parents-first delivery gives.
+func duplicatedOrphan(c *Ctx, copies, rounds int) {
+	w := NewWorld(c)
+	defer w.Close()
+	w.quiet = true
+	a := w.NewNode()
+	w.NewNode()
+	b := w.NewNode()
+	w.NewWallet()
+	w.NewWallet()
+	w.quiet = false
+	w.Genesis(a, w.wallets[0].Address(), spice.Melange{Currency: 1000})
+	w.syncFrom(a, w.nodes[1])
+	w.syncFrom(a, b)
+	w.quiet = true
+	hist, origin := w.history(3, false)
+	w.quiet = false
+	want := origin.ab.VerifSnapshot()
+	info := map[string]interface{}{"section": "orphans", "scenario": "duplicated-orphan", "copies": copies, "rounds": rounds}
+	c.Mark(info)
+	bad := ""
+	note := func(what string, err error) {
+		switch errTag(err) {
+		case "ok", "noParent", "leafExists":
+		default:
+			if bad == "" {
+				bad = what + ": " + errTag(err)
+			}
+		}
+	}
+	for i := 0; i < copies; i++ {
+		v := hist[1]
+		note("delivery of a copy", w.Add(b, &v))
+	}
+	for r := 0; r < rounds*copies; r++ {
+		_, err := w.Retry(b)
+		note(fmt.Sprintf("retry %d", r), err)
+	}
+	v0, v2 := hist[0], hist[2]
+	note("delivery of the parent", w.Add(b, &v0))
+	note("delivery of the grandchild", w.Add(b, &v2))
+	for i := 0; i < 40*copies+40; i++ {
+		had, _ := w.Retry(b)
+		if !had {
+			break
+		}
+	}
+	got := b.ab.VerifSnapshot()
+	c.Distinct(fmt.Sprintf("duplicated-orphan/%d/%d", copies, rounds))
+	if bad != "" {
+		c.Violate("C13", "valid-history-outcome-not-benign", fmt.Sprintf("%d copies of a valid orphan, each replayed %d times before the parent arrived: %s", copies, rounds, bad), info)
+	}
+	if ledgerKey(&got) != ledgerKey(&want) || len(got.Parked) != 0 {
+		c.Violate("C13", "duplicated-orphan-lost", fmt.Sprintf("%d copies of a valid orphan, each replayed %d times (bound 25) before the parent arrived: receiver ends with %d vertices (%d parked), parents-first delivery gives %d",
+			copies, rounds, len(got.Vertices), len(got.Parked), len(want.Vertices)), info)
+	}
+	c.Count("scenario.duplicated-orphan")
+}
+
 // longWait: a chain whose first vertex is withheld for so long that the buffer has handed out (and taken
 // back) far more entries than it can hold at once; every vertex stays well inside the 25-retries bound.
 func longWait(c *Ctx, k, rounds int) {
@@ -409,6 +471,9 @@ func init() {
 		orphanScenario(c, 20, false, rev, false, "reverse20")
 		// a buffer's worth of vertices that do not verify, then a short valid history in reverse order
 		orphanScenarioFlood(c, 3, false, []int{2, 1, 0}, false, "forged-flood", 500)
+		// the same orphan from several peers, replayed for a while before its parent comes
+		duplicatedOrphan(c, 3, 10)
+		duplicatedOrphan(c, 2, 20)
 		// many unsuccessful retries before the missing ancestor arrives (more pops than the buffer holds)
 		longWait(c, 60, 9)
 		if c.Tier == "thorough" {
